@@ -149,6 +149,12 @@ func c18RunIn(hist []c18Action, queries bool) vh.HistResult {
 		{"zero-before", early, now, early, time.Time{}},
 		{"first-day-only", early, t0.Add(time.Minute), early, t0.Add(time.Minute)},
 	}
+	if os.Getenv("VERIF_TZ") != "" {
+		// the same instants carried by time values in UTC (a time.Time denotes an instant, whatever its zone)
+		windows = append(windows,
+			window{"same-day, UTC values", now.Add(-time.Hour), now, now.Add(-time.Hour).UTC(), now.UTC()},
+			window{"across-midnight, UTC values", now.Add(-26 * time.Hour), now, now.Add(-26 * time.Hour).UTC(), now.UTC()})
+	}
 	outcomes := map[string]bool{}
 	for _, kind := range []string{"recv", "sent"} {
 		for _, name := range c18Names {
@@ -299,8 +305,22 @@ func c18Alphabet(maxWrites, maxClock int, names []string) func(hist []c18Action)
 
 func TestC18(t *testing.T) {
 	c18T = t
-	os.Setenv("TZ", "UTC")
-	rep := vh.NewReport("C18", "log look-ups and replay over write/clock histories")
+	if tz := os.Getenv("VERIF_TZ"); tz != "" {
+		// the same histories with the process in another time zone: day files are named after the
+		// local date, callers pass windows in whatever zone their time values carry
+		loc, err := time.LoadLocation(tz)
+		if err != nil {
+			t.Fatal(err)
+		}
+		time.Local = loc
+	} else {
+		os.Setenv("TZ", "UTC")
+	}
+	name := "log look-ups and replay over write/clock histories"
+	if tz := os.Getenv("VERIF_TZ"); tz != "" {
+		name += " (process time zone " + tz + ", windows also given as UTC values)"
+	}
+	rep := vh.NewReport("C18", name)
 	defer rep.Write()
 	var rc []c18Action
 	if vh.ReplaySpec(&rc) {
